@@ -3,7 +3,7 @@
    clauses of the property statement, each for all operands / trees / environments. *)
 From Flocq Require Import Core BinarySingleNaN.
 Require Import ZArith NArith Bool List Arith Reals. Import ListNotations.
-Require Import F64 Dec Types Generic Lang LangLaws Spec SpecFacts.
+Require Import F64 Dec Types Generic Lang LangLaws Spec SpecFacts FremFacts.
 Notation ev E e := (fst (eval_t E e)).
 
 (* the language definition as rules (Spec.v: literals, variables, arrays and calls left to right stopping at the first failure, unary,
@@ -21,6 +21,21 @@ Theorem C03_arith_is_ieee : forall x y,
 Proof. exact arith_typed_is_ieee. Qed.
 Theorem C03_div_truncates : forall x y, is_finite (fdiv x y) = true -> B2R (ftrunc (fdiv x y)) = IZR (Ztrunc (B2R (fdiv x y))).
 Proof. exact div_truncates. Qed.
+(* mod takes the dividend's sign: for finite non-zero operands the result r is the remainder of the division truncated toward zero -
+   x = q*y + r for an integer q, |r| < |y|, r zero or of x's sign - computed exactly (no rounding); the other cases are the IEEE table *)
+Theorem C03_mod_dividend_sign : forall sx mx ex Hx sy my ey Hy,
+  let x := B754_finite sx mx ex Hx in let y := B754_finite sy my ey Hy in
+  is_finite (frem x y) = true /\
+  exists q : Z, (B2R x = IZR q * B2R y + B2R (frem x y) /\ Rabs (B2R (frem x y)) < Rabs (B2R y) /\ 0 <= B2R (frem x y) * B2R x)%R.
+Proof. exact frem_finite_correct. Qed.
+Theorem C03_mod_table : forall x y,
+  frem x y = match x, y with
+             | B754_nan, _ | _, B754_nan | B754_infinity _, _ | _, B754_zero _ => B754_nan
+             | B754_zero s, _ => B754_zero s
+             | B754_finite _ _ _ _, B754_infinity _ => x
+             | B754_finite _ _ _ _, B754_finite _ _ _ _ => frem x y end.
+Proof. exact frem_table. Qed.
+Print Assumptions C03_mod_dividend_sign.
 (* + concatenates strings and arrays; xor on booleans; everything else mistyped is an error, never a coerced value *)
 Theorem C03_plus_table : forall a b, binop Plus a b =
   match a, b with VStr x, VStr y => Ok (VStr (x ++ y)) | VNum x, VNum y => Ok (VNum (fadd x y)) | VArr x, VArr y => Ok (VArr (x ++ y)) | _, _ => Er (InvalidBinary Plus) end.
